@@ -172,8 +172,26 @@ func GuardsAt(b *ssa.BasicBlock) []Guard {
 			continue
 		}
 		t, f := d.Succs[0], d.Succs[1]
-		tDom := len(t.Preds) == 1 && (t == b || t.Dominates(b))
-		fDom := len(f.Preds) == 1 && (f == b || f.Dominates(b))
+		if t == f {
+			continue
+		}
+		// the successor is entered only through this edge: its other
+		// predecessors are back edges from blocks it dominates (loop header)
+		onlyVia := func(s *ssa.BasicBlock) bool {
+			n := 0
+			for _, p := range s.Preds {
+				if p == d {
+					n++
+					continue
+				}
+				if !s.Dominates(p) {
+					return false
+				}
+			}
+			return n == 1
+		}
+		tDom := onlyVia(t) && (t == b || t.Dominates(b))
+		fDom := onlyVia(f) && (f == b || f.Dominates(b))
 		if tDom && !fDom {
 			out = append(out, Guard{ifi.Cond, true, ifi})
 		} else if fDom && !tDom {
